@@ -248,7 +248,10 @@ func (q *OutQueue) cleanAckedChunks() {
 		}
 	}
 	if len(q.acked) > MaxCachedChunks {
-		q.acked = q.acked[0:MaxCachedChunks]
+		// Keep the most recent acknowledgements. (Keeping the oldest ones meant that, once the
+		// 16-bit sequence number wrapped, new packets carrying those numbers were discarded
+		// as "already acked" before they were ever sent.)
+		q.acked = append([]uint16{}, q.acked[len(q.acked)-MaxCachedChunks:]...)
 	}
 
 	q.checkQueueFull()
